@@ -7,7 +7,7 @@
 From Coq Require Import ZArith List Ascii Bool NArith Lia.
 From Cspuz Require Import Lib.PyErr Codec.Comb Codec.CombWf Codec.CombBasics Codec.CombLeaf Codec.CombRoundTrip
   Codec.Yajilin Codec.Puzzles Codec.PuzzleProofs Codec.YajilinProofs
-  Codec.TotalModel Codec.TotalLeaf Codec.Total Codec.TotalReencLeaf Codec.TotalReenc Gen.Codecs.
+  Codec.TotalModel Codec.TotalLeaf Codec.Total Codec.TotalReencModel Codec.TotalReencLeaf Codec.TotalReenc Gen.Codecs.
 Import ListNotations.
 Local Open Scope Z_scope.
 
